@@ -224,8 +224,10 @@ type Instance struct {
 	ForceHook bool             // the check needs the call trace: never run without the hook
 
 	Tracer *Tracer
-	Out    kit.Outcome
-	G      *model.Graph
+	// NoForeign suppresses the unrelated second container that Run otherwise starts now and then
+	NoForeign bool
+	Out       kit.Outcome
+	G         *model.Graph
 }
 
 func (s *Scenario) Instantiate() *Instance {
@@ -301,6 +303,35 @@ func (in *Instance) Run(extraOps ...app.SettingOption) {
 		if in.Pre != nil {
 			in.Pre(a)
 		}
+		safeLookup := func(name string) (got any, err error) {
+			if p := kit.Protect(func() { got, err = a.GetComponentByName(name) }); p != nil {
+				if be, ok := p.(BudgetExceeded); ok {
+					panic(be)
+				}
+				err = fmt.Errorf("lookup panicked: %v", p)
+			}
+			return
+		}
+		for _, e := range in.Extra {
+			switch o := e.(type) {
+			case *ObsPP:
+				if len(o.InstLookup) > 0 {
+					o.Lookup = safeLookup
+				}
+			case *OrderedObsPP:
+				if len(o.InstLookup) > 0 {
+					o.Lookup = safeLookup
+				}
+			case *PriorityObsPP:
+				if len(o.InstLookup) > 0 {
+					o.Lookup = safeLookup
+				}
+			case *MarkerObsPP:
+				if len(o.InstLookup) > 0 {
+					o.Lookup = safeLookup
+				}
+			}
+		}
 		for _, b := range in.Behs {
 			if b != nil && len(b.InitLookups) > 0 {
 				b.Lookup = func(name string) (got any, err error) {
@@ -316,11 +347,22 @@ func (in *Instance) Run(extraOps ...app.SettingOption) {
 			}
 		}
 	}, ops...)
-	regd := in.Out.App.GetRegisteredComponents()
-	if regd == nil {
-		regd = map[string]any{}
-		for _, c := range append(append([]any{}, in.Comps...), in.Extra...) {
-			n, _ := model.NameOf(c)
+	// now and then another, unrelated container is started in this process right after this one (containers do not
+	// share anything: whatever is looked up or created later in this one still goes by its own registries)
+	if in.Out.OK() && (s.OrdSeed>>5)%2 == 0 && !in.NoForeign {
+		fb := &zoo.Beh{ID: -1, Mask: "m0", Log: &zoo.Log{}}
+		_ = kit.RunApp(app.SetComponents(zoo.New('H', 0, fb)))
+	}
+	// the model's population: what the container reports as registered (that brings the App and other framework
+	// components in) PLUS everything this harness registered, under the name the naming rule gives it - a component
+	// the container silently left out of its books is still a component of the scenario
+	regd := map[string]any{}
+	for n, c := range in.Out.App.GetRegisteredComponents() {
+		regd[n] = c
+	}
+	for _, c := range append(append([]any{}, in.Comps...), in.Extra...) {
+		n, _ := model.NameOf(c)
+		if _, ok := regd[n]; !ok {
 			regd[n] = c
 		}
 	}
